@@ -127,6 +127,9 @@ def run_part(v):
     if v.tier == "thorough":
         from . import specmut
         v.notes["quadrature_spec_mutants"] = specmut.audit("Quadrature", cfg.replace("ACTION_CONSTRAINT Emit\n", ""), SPEC_MUTANTS)
+        from . import apalache
+        v.notes["quadrature_inductive_invariant_any_history_length"] = apalache.inductive(
+            v, "C02-quad", "Quadrature", "MC_Quadrature", ("min-setter-keeps-table", "THEN lo' = v /\\ table' = <<v, hi>>", "THEN lo' = v /\\ table' = table"))
 
 
 def selftest():
